@@ -26,16 +26,18 @@ type Case struct {
 	L0    int       `json:"l0,omitempty"`
 	Route int       `json:"route,omitempty"`
 	// overlap: two boxes given as (mins, maxs) and how they are built, a point, and the layout argument
-	B1, B2   Box       `json:"b1,omitempty"`
-	P        []model.F `json:"p,omitempty"`
-	OL       int       `json:"ol,omitempty"`
+	B1 Box       `json:"b1,omitempty"`
+	B2 Box       `json:"b2,omitempty"`
+	P  []model.F `json:"p,omitempty"`
+	OL int       `json:"ol,omitempty"`
 }
 
 // Box describes a Bounds to build.
 type Box struct {
 	Layout int       `json:"l"`
 	Via    string    `json:"via"` // set | setcoords | extend
-	A, B   []model.F `json:"a,omitempty"`
+	A      []model.F `json:"a,omitempty"`
+	B      []model.F `json:"b,omitempty"`
 }
 
 // dims names the dimensions a layout carries, in storage order.
@@ -271,10 +273,12 @@ func prop(c Case) error {
 		b1, b2 := buildBox(c.B1), buildBox(c.B2)
 		ol := geom.Layout(c.OL)
 		// the boxes hold what was put in
-		for name, pair := range map[string]struct {
-			b   *geom.Bounds
-			box Box
-		}{"b1": {b1, c.B1}, "b2": {b2, c.B2}} {
+		for _, pair := range []struct {
+			name string
+			b    *geom.Bounds
+			box  Box
+		}{{"b1", b1, c.B1}, {"b2", b2, c.B2}} {
+			name := pair.name
 			a, bb := model.Floats(pair.box.A), model.Floats(pair.box.B)
 			for i := range a {
 				if pair.box.Via == "extend-xy-only" && i >= 2 {
